@@ -3,10 +3,10 @@ import runner_corr
 
 META = {
     "lean_modules": ["QVerif.Props.C07"],
-    "drivers": ["Runner"],
-    "theorems": ['Runner.C07_f_exclusive', 'MutexModel.mutex_run_exclusive', 'Runner.cinv_reachable', 'Runner.step_sound'],
+    "drivers": ["Runner", "Install"],
+    "theorems": ["QVerif.Install.shared_guard", 'Runner.C07_f_exclusive', 'MutexModel.mutex_run_exclusive', 'Runner.cinv_reachable', 'Runner.step_sound'],
     "level": "proof",
-    "level_text": 'Proof: f_exclusive (at most one thread between the start of f(batch) and the return of its result(), and it owns both locks) from the inductive invariant CInv, for any number of threads/calls/interleavings; mutex_run_exclusive for the plain `with lock:` wrappers. Tied to the code by lock-step trace conformance and an overlap counter inside the fake primitive.',
+    "level_text": 'Proof: f_exclusive (at most one thread between the start of f(batch) and the return of its result(), and it owns both locks) from the inductive invariant CInv, for any number of threads/calls/interleavings; mutex_run_exclusive for the plain `with lock:` wrappers; shared_guard for the constructor of the solver (Model/Install.lean): the guard installed by the first solver constructed on a configured primitive lies on the evaluation path of every solver constructed on it afterwards, with a transpiling wrapper outermost. Tied to the code by lock-step trace conformance and an overlap counter inside the fake primitive.',
     "level_note": "Trusted: Lean kernel + propext/Classical.choice/Quot.sound; the hand-written transition system Model/Runner.lean is tied to "
     "mutex_primitives.py by the sampled lock-step conformance only; semantics of threading.Lock/Condition as modelled by the cooperative "
     "primitives; scheduler fairness for liveness; the wrapped primitive returns or raises.",
